@@ -12,6 +12,7 @@ import (
 
 	"verifharness/ref"
 	"verifharness/sim"
+	"verifharness/world"
 )
 
 // ---- C08: non-escalation monitor --------------------------------------------------
@@ -299,8 +300,11 @@ func (rm *room) checkStateless(ev gmsl.PDU, list []gmsl.PDU, first error) {
 	r.Probe("stateless_checks")
 	want := verdict(first)
 	desc := rm.describeCheck(ev, list)
-	// (1) repeat
-	if got := verdict(gmsl.Allowed(ev, provOf(list), uidFor)); got != want {
+	// (1) repeat, under another map-iteration order ("on every evaluation")
+	verifrt.SetSalt(uint64(1 + t.Intn(1<<20)))
+	got1 := verdict(gmsl.Allowed(ev, provOf(list), uidFor))
+	verifrt.SetSalt(0)
+	if got := got1; got != want {
 		r.Violate("C09", "stateless", "repeat", "verdict changed on repeating the evaluation: %v then %v for %s", want, got, desc)
 	}
 	// (2) another insertion order
@@ -434,6 +438,16 @@ func (rm *room) checkerHistory() {
 				continue
 			}
 			contents = append(contents, e)
+		}
+		if alt := rm.altCreate(); alt != nil && t.Chance(250) {
+			// another create event for the same room ID (possible before room
+			// IDs were derived from the create event): different content
+			for j, e := range contents {
+				if e.Type() == spec.MRoomCreate {
+					contents[j] = alt
+					r.Probe("history_provider_has_other_create_event")
+				}
+			}
 		}
 		want := verdict(gmsl.Allowed(ev, provOf(contents), uidFor))
 		p.Clear()
@@ -583,4 +597,24 @@ func hasDup(evs []gmsl.PDU) bool {
 		seen[e.EventID()] = true
 	}
 	return false
+}
+
+// altCreate builds (once per room) a second create event with the same room
+// ID but other content (unfederated, other creator field).
+func (rm *room) altCreate() gmsl.PDU {
+	if rm.impl.DomainlessRoomIDs() {
+		return nil
+	}
+	if rm.alt != nil {
+		return rm.alt
+	}
+	creator := rm.users[0]
+	content := map[string]any{"room_version": string(rm.ver), "creator": creator.id, "m.federate": false}
+	ev, err := world.Build(rm.impl, world.Proto{RoomID: rm.roomID, Sender: creator.id, Type: spec.MRoomCreate, StateKey: world.Str(""), Content: content, Depth: 1},
+		rm.now, creator.srv.Name, creator.srv.Current())
+	if err != nil {
+		return nil
+	}
+	rm.alt = ev
+	return ev
 }
